@@ -435,8 +435,8 @@ theorem refused_request_changes_nothing (s : St) (op : Op) (h : (step s op).2 = 
   | legacyType k => simp [step] at h
   | restart => simp [step] at h
 
-/-- C20.S1' … spelled out for create: the request is refused exactly when the interval is 0, the window is
-shorter than the interval or the type is neither Logs nor Metrics — and then nothing is stored -/
+/-- C20.S1' … spelled out for the creation of a Logs alert: the request is refused exactly when the interval is 0
+or the window is shorter than the interval — and then nothing is stored -/
 theorem refused_create_stores_nothing (s : St) (window interval : Nat) :
     ((step s (.create window interval)).2 = .refused ↔ (interval = 0 ∨ window < interval)) ∧
     ((step s (.create window interval)).2 = .refused →
